@@ -6,7 +6,7 @@ from ..engine import pyflow, tables
 from ..engine.pyindex import walk_no_nested, is_self_attr
 from ..rules import tree as tree_rules
 from ..rules.pC07 import Eval, Obj, Unsupported, Method, RepoFn
-from ..rules import sC40, s4C40
+from ..rules import sC40, s4C40, dD1
 
 ID = 'C40'
 TECHNIQUE = ('decision-table extraction: TypeInference.safe_spanning_type, the handlers of MarkOverflowingArithmetic and NameNode.infer_type are evaluated over '
@@ -42,8 +42,8 @@ DECIDES = ('(a) C40-SST: for every C integer / enum kind that is not bint (plain
            'these properties and hand it the types of BOTH operands. '
            'Written but NOT armed (pending findings, both report the unmodified tree): C40-CLOSURE (FINDING_2: entry.might_overflow is stored on the InnerEntry of a closure variable only) and '
            'C40-FORWARD (FINDING_3: CondExprNode / BoolBinopNode, whose value is one of their operands, are visited as "safe"). '
-           'Round six, written but NOT armed: C40-SELCHAR (a Py_UCS4 operand of and / or / a conditional expression shares a number type with a number: '
-           '`s = "abc"; n = 5; x = s[1] if c else n` returns 98 on the unmodified tree).')
+           'Round six: C40-SELCHAR (a Py_UCS4 operand of and / or / a conditional expression never shares a number type with a number: '
+           '`s = "abc"; n = 5; x = s[1] if c else n` returned 98 before the repair), C40-INFSCOPE and C40-ITEMTYPE (rules/dD1.py).')
 NOT_DECIDED = ('the spanning-type computation for pairs without a bool (C40-PYTYPE, the general "the chosen C type has the Python type of every merged kind" table, is written but NOT armed: '
                'it reports int+float -> C double etc. on the unmodified tree, pending finding), which assignments are collected (MarkParallelAssignments, control flow), result types of '
                'arithmetic nodes, everything value-dependent; definedness-aware inference (known finding K4, rule of C21e) is not re-checked here; float/double inference '
@@ -555,5 +555,6 @@ def run(ctx):
             sC40.rule_CLOSURE(ctx),          # known finding K12: might_overflow of a closure variable is set on the InnerEntry only (the repair changes inference results that upstream doctests pin)
             sC40.rule_FORWARD(ctx, vis),     # found CondExprNode / BoolBinopNode visited as "safe" (repaired: a4c81cd1f)
             s4C40.rule_SELECT(ctx), s4C40.rule_SELWIRE(ctx),
-            # s4C40.rule_SELCHAR(ctx),       # pending finding (round six, FINDING_1): independent_spanning_type(Py_UCS4, C long) is C long on the unmodified tree
+            s4C40.rule_SELCHAR(ctx),       # armed after the repair (round six, FINDING_1): independent_spanning_type(Py_UCS4, C long) was C long on the unmodified tree
+            dD1.rule_infscope(ctx), dD1.rule_itemtype(ctx),     # round six (rules/dD1.py), armed after the repairs 7519bb408 and 19bd3db7a
             ]
